@@ -913,6 +913,11 @@ impl<'a, 'b> Gen<'a, 'b> {
                 return s;
             }
         }
+        if self.p.self_update_bias > 0 && self.p.call_bias > 0 && depth > 0 && self.t.chance(16) {
+            if let Some(s) = self.accumulate_while() {
+                return s;
+            }
+        }
         if self.p.self_update_bias > 0 && self.in_loop > 0 && self.t.chance(40) {
             if let Some(s) = self.copy_through() {
                 return s;
@@ -1160,6 +1165,57 @@ impl<'a, 'b> Gen<'a, 'b> {
         let body = Stmt::Block { id: self.ids.next(), stmts: vec![w1, rd, w2] };
         let for_stmt = Stmt::For { id: self.ids.next(), init: Box::new(init), cond, step: Box::new(step), body: Box::new(body) };
         Some(Stmt::Block { id: self.ids.next(), stmts: vec![decl, for_stmt] })
+    }
+
+    /// `{ var w = 0; while (w < B) { w++; var nx = acc op <data>; acc = nx; } }`: the counter is stepped
+    /// first and the loop-carried value comes back through a plain copy as the last statement of the body.
+    fn accumulate_while(&mut self) -> Option<Stmt> {
+        let scalars: Vec<VarInfo> =
+            self.local_targets().into_iter().filter(|v| v.ty == Ty::Var && self.assigned.contains(&v.key)).collect();
+        if scalars.is_empty() || self.control_ctx {
+            return None;
+        }
+        let acc = scalars[self.t.below(scalars.len())].clone();
+        let w = self.fresh_name("w");
+        let nx = self.fresh_name("nx");
+        let bound = 2 + self.t.below(3) as u64;
+        let decl = Stmt::Decl {
+            id: self.ids.next(),
+            kind: DeclKind::Var,
+            syms: vec![DeclSym { id: self.ids.next(), sub_id: self.ids.next(), name: w.clone(), dims: vec![], init: Some(self.small_literal(0)) }],
+            init_op: AssignOp::Var,
+        };
+        let cond = Expr::Infix {
+            id: self.ids.next(),
+            op: Op::Lt,
+            l: Box::new(Expr::Var { id: self.ids.next(), name: w.clone(), access: vec![] }),
+            r: Box::new(self.small_literal(bound)),
+        };
+        let step = Stmt::IncDec { id: self.ids.next(), name: w.clone(), access: vec![], inc: true };
+        self.in_loop += 1;
+        let (e, d) = self.expr_tracked(1);
+        self.in_loop -= 1;
+        let op = if self.t.chance(200) { Op::Mul } else { self.infix_op() };
+        let me = Expr::Var { id: self.ids.next(), name: acc.name.clone(), access: vec![] };
+        let rhs = Expr::Infix { id: self.ids.next(), op, l: Box::new(me), r: Box::new(e) };
+        let nx_decl = Stmt::Decl {
+            id: self.ids.next(),
+            kind: DeclKind::Var,
+            syms: vec![DeclSym { id: self.ids.next(), sub_id: self.ids.next(), name: nx.clone(), dims: vec![], init: Some(rhs) }],
+            init_op: AssignOp::Var,
+        };
+        let lhs = Expr::Var { id: self.ids.next(), name: acc.name.clone(), access: vec![] };
+        let copy = Stmt::Assign {
+            id: self.ids.next(),
+            lhs,
+            op: AssignOp::Var,
+            rhs: Expr::Var { id: self.ids.next(), name: nx, access: vec![] },
+            reversed: false,
+        };
+        self.taint(acc.key, d);
+        let body = Stmt::Block { id: self.ids.next(), stmts: vec![step, nx_decl, copy] };
+        let wh = Stmt::While { id: self.ids.next(), cond, body: Box::new(body) };
+        Some(Stmt::Block { id: self.ids.next(), stmts: vec![decl, wh] })
     }
 
     /// `{ var nx = x op e; x = nx; }`: a loop-carried value that goes through a plain copy.
